@@ -12,7 +12,8 @@ extern size_t         W_len_at_last_unlock;
 extern size_t         W_len_at_broadcast;
 extern ares_int64_t   W_now_sec;         /* virtual monotonic clock */
 extern unsigned int   W_now_usec;
-unsigned long         W_remaining_ms(void); /* reference: whole milliseconds left until the deadline (0 = reached) */
+extern unsigned long  W_last_rem_ms;     /* whole milliseconds of the last remaining-time result handed to the function */
+extern int            W_rem_calls;
 void                  W_advance(size_t max_us); /* time passes: any amount up to max_us */
 extern ares_int64_t   W_last_advance_us;
 extern int            W_tvnow_calls;
